@@ -56,8 +56,9 @@ RxMenuDef == <<
   \* 5: 2 S1 + S2 -> (gamma delay) S4
   RxT(<<1, 1, 2>>, << >>, << >>, <<4>>, "massaction", "MassActionPropensity", 0, 0, <<Lit("k", R(1, 2))>>, <<1>>, NoE,
       "gamma", "GammaDelay", <<Lit("k", I(2)), Lit("theta", R(1, 4))>>),
-  \* 6: S3 -> S4 activated by S1
-  RxT(<<3>>, <<4>>, << >>, << >>, "hillpositive", "PositiveHillPropensity", 1, 0,
+  \* 6: 0 -> S4 activated by S1 (every reaction that consumes a species has a rate that vanishes with it, so that
+  \*    counts stay non-negative also without the safe interface)
+  RxT(<< >>, <<4>>, << >>, << >>, "hillpositive", "PositiveHillPropensity", 1, 0,
       <<Named("k", "k1"), Lit("K", I(2)), Lit("n", I(2))>>, <<2, 3, 1>>, NoE, "none", "", NoSlots),
   \* 7: S3 -> S4 proportional to S3, activated by S2
   RxT(<<3>>, <<4>>, << >>, << >>, "proportionalhillpositive", "PositiveProportionalHillPropensity", 2, 3,
@@ -83,8 +84,8 @@ RuleMenuDef == <<
   RuleT("assignment", "repeat", 0, "k2", EBin("add", ESp(1), ENum(One)), << >>),
   \* 3: additive S4 = S1 + S2
   RuleT("additive", "repeat", 4, "", EBin("add", ESp(1), ESp(2)), << >>),
-  \* 4: ode rule dS3/dt = k1 - S3/2
-  RuleT("ode", "dt", 3, "", EBin("sub", EPar(1), EBin("div", ESp(3), ENum(I(2)))), <<"k1">>),
+  \* 4: ode rule dS3/dt = 4 Heaviside(k1): with the harness's grid step 1/4 the species stays an integer
+  RuleT("ode", "dt", 3, "", EBin("mul", ENum(I(4)), EUn("step", EPar(1))), <<"k1">>),
   \* 5: counter S4 = S4 + 1 once per dt
   RuleT("assignment", "dt", 4, "", EBin("add", ESp(4), ENum(One)), << >>),
   \* 6: S3 = q0 + 1 at the start (introduces a parameter without value)
